@@ -83,9 +83,47 @@ def run(ctx: Ctx):
             got = {p.name: inl_w.text(a) for p, a, _ in b.pairs}
             seen.add(cn)
             for k, v in ctor_want[cn].items():
+                if k in ("mode", "valid_only"):
+                    continue  # decided below as a function of pad_mode
                 col.ob("G1", "S1", f"command_line.py::{work.qualname}::{cn}({k}<-{got.get(k)})", got.get(k) == v,
                        f"{cn}.{k} receives `{got.get(k)}`, expected `{v}`", "command_line.py", c.lineno,
                        sample=dict(ctor=cn, formal=k, arg=got.get(k)))
+    # the two arguments that depend on --pad-mode, as a table over pad_mode in {None, 'reflect', 'replicate'}: whichever call site is
+    # reached (one conditional expression, or one constructor call per branch), valid_only == (pad_mode is None) and the chunker's
+    # mode == 'constant' if pad_mode is None else pad_mode
+    from sa.inteval import NotEvaluable as _NEv, guarded_value as _gval, int_eval as _iev
+    rd_w, pm_w = ReachingDefs(work.node), parent_map(work.node)
+    bad_tab = None
+    try:
+        for pmv in (None, "reflect", "replicate"):
+            env = {"pad_mode": pmv}
+            for cn, formal, want_v in (("SliceSpectData", "valid_only", pmv is None), ("ChunkBySlices", "mode", "constant" if pmv is None else pmv)):
+                reached = []
+                for c in own_calls(work.node):
+                    if call_name(c) != cn:
+                        continue
+                    ok_g = True
+                    for t_, pol_ in guards_of(pm_w, c):
+                        try:
+                            if bool(_gval(t_, dict(env), rd_w, pm_w)) != pol_:
+                                ok_g = False
+                        except _NEv:
+                            pass
+                    if ok_g:
+                        reached.append(c)
+                vals = []
+                for c in reached:
+                    r = res.resolve_call(c, work)
+                    b = bind_args(c, r[0][-1], r[1])
+                    a_ = b.arg_for(formal)
+                    vals.append(_gval(a_, dict(env), rd_w, pm_w) if a_ is not None else "<default>")
+                if (len(vals) != 1 or vals[0] != want_v or type(vals[0]) is not type(want_v)) and bad_tab is None:
+                    bad_tab = dict(pad_mode=pmv, ctor=cn, formal=formal, receives=vals, expected=want_v)
+    except _NEv as ex_:
+        bad_tab = dict(undecided=str(ex_))
+    col.ob("G1", "S1", f"command_line.py::{work.qualname}::pad-mode-decides-valid_only-and-chunker-mode", bad_tab is None,
+           f"{bad_tab}: SliceSpectData.valid_only must be (pad_mode is None) and ChunkBySlices.mode 'constant' if pad_mode is None else pad_mode",
+           "command_line.py", work.line)
     col.ob("G1", "S1", f"command_line.py::{work.qualname}::builds-all-three-modules", seen == set(ctor_want),
            f"the chunk worker builds {sorted(seen)}", "command_line.py", work.line)
     R_fwd.g7_cli(pkg, res, col, clause="S1", only={"chunk_torch_spect_data_dir"})
@@ -181,7 +219,11 @@ def run(ctx: Ctx):
     # tokens with a missing (-1) or inverted boundary are never kept
     from sa.astutil import oriented
 
+    from sa.inline import Inliner as _InlB
+    _inl_b = _InlB(ch.node)
+
     def _base(v):
+        v = _inl_b.expand(v)  # named columns (`ref_starts, ref_ends = refs[..., 1], refs[..., 2]`) are looked through
         nonneg = any(isinstance(c, ast.Call) and isinstance(c.func, ast.Attribute) and c.func.attr == "all" and
                      (oriented(c.func.value, lambda e: True) or (None, None, None))[0] == "ge" and
                      u(oriented(c.func.value, lambda e: True)[2]) == "0" for c in ast.walk(v))
@@ -300,15 +342,15 @@ def run(ctx: Ctx):
     col.floor("driver_save_sites", n_saves, 3)
     # the slicer is fed the tensor matching the policy
     feeds = {}
-    for n in own_nodes(work.node):
-        if isinstance(n, ast.Assign) and isinstance(n.value, ast.Call) and call_name(n.value) in slicer_names:
-            gs = guards_of(pm_of(work), n)
-            key = None
-            for t, polr in gs:
-                if isinstance(t, ast.Compare) and u(t.left) == "policy" and polr:
-                    key = t.comparators[0].value
-            feeds[key] = kind_of(n.value.args[0]) if n.value.args else None
-    col.ob("G16", "S5", f"{wwhere}::slicer-input-by-policy", feeds == {"fixed": "feat", "ali": "ali", None: "ref"},
+    from sa.specialise import _eval as _sev10, _UNK as _SUNK10
+    for polv in (pol or ["fixed", "ali", "ref"]):
+        for n in own_nodes(work.node):
+            if isinstance(n, ast.Assign) and isinstance(n.value, ast.Call) and call_name(n.value) in slicer_names:
+                # reached when policy == polv (whatever the order of the arms and whichever arm is the else)
+                if all(_sev10(t, {"policy": polv}) is _SUNK10 or bool(_sev10(t, {"policy": polv})) == polr for t, polr in guards_of(pm_of(work), n)):
+                    feeds.setdefault(polv, set()).add(kind_of(n.value.args[0]) if n.value.args else None)
+    feeds = {k: (next(iter(v)) if len(v) == 1 else sorted(map(str, v))) for k, v in feeds.items()}
+    col.ob("G16", "S5", f"{wwhere}::slicer-input-by-policy", feeds == {"fixed": "feat", "ali": "ali", "ref": "ref"},
            f"the slicer is fed {feeds}; expected the features for 'fixed', the alignments for 'ali', the references otherwise",
            wrel, work.line, sample={str(k): v for k, v in feeds.items()})
 
@@ -726,7 +768,7 @@ def _mutants():
         M("policy-arm-lost", F, "elif policy == 'ali':", "elif policy == 'alignment':", "G8/S2"),
         M("choices-differ", C, "choices=['fixed', 'ali', 'ref']", "choices=['fixed', 'ali']", "choices(policy)"),
         M("worker-valid-only-inverted", C, "SliceSpectData(policy, window_type, pad_mode is None, lobe_size)", "SliceSpectData(policy, window_type, pad_mode is not None, lobe_size)",
-          "SliceSpectData(valid_only"),
+          "pad-mode-decides-valid_only-and-chunker-mode"),
         M("worker-partial-retain-swapped", C, "ChunkTokenSequencesBySlices(partial_tokens, retain_token_boundaries)", "ChunkTokenSequencesBySlices(retain_token_boundaries, partial_tokens)",
           "ChunkTokenSequencesBySlices("),
         M("refs-cut-with-feat-lens", C, "torch.save(refs[n, :ref_lens[n]], os.path.join(out_ref_dir, out_basename))", "torch.save(refs[n, :lens[n]], os.path.join(out_ref_dir, out_basename))",
